@@ -182,3 +182,32 @@ Proof.
   split; [intros H; cbn in H; intuition discriminate|].
   split; [now exists [95; 98; 58; 100]|]. split; [reflexivity|discriminate].
 Qed.
+
+(* ---------- which meta record decides about an element key (compaction filter, collHeaderMeta) ---------- *)
+(* rockCompactFilter.Filter and collHeaderMeta read encodeMetaKey(dt, "table:key") for an element of data type dt:
+   that is the meta record of the SAME (type, table, key) — and the meta records of different collection types
+   with the same name are different engine keys, so a decision cached under the name alone is wrong *)
+Definition meta_type_of (dt : N) : N :=
+  if (dt =? hash_type) then hsize_type else if (dt =? list_type) then lmeta_type
+  else if (dt =? set_type) then ssize_type else if (dt =? zset_type) || (dt =? zscore_type) then zsize_type
+  else if (dt =? bitmap_type) then bitmap_meta_type else dt.
+
+Definition is_elem_type (dt : N) : bool :=
+  (dt =? hash_type) || (dt =? list_type) || (dt =? set_type) || (dt =? zset_type) || (dt =? zscore_type) || (dt =? bitmap_type).
+
+Theorem meta_key_of_element_type dt t rk : is_elem_type dt = true ->
+  encode_meta_key dt (pack_redis_key t rk) = Ok (encode_ekey (KMeta (meta_type_of dt) t rk)) /\
+  is_meta_type (meta_type_of dt) = true.
+Proof.
+  unfold is_elem_type. rewrite !orb_true_iff, !N.eqb_eq.
+  intros [[[[[->| ->]| ->]| ->]| ->]| ->]; split; reflexivity.
+Qed.
+
+Theorem meta_keys_of_types_differ dt dt' raw k k' : is_elem_type dt = true -> is_elem_type dt' = true ->
+  meta_type_of dt <> meta_type_of dt' ->
+  encode_meta_key dt raw = Ok k -> encode_meta_key dt' raw = Ok k' -> k <> k'.
+Proof.
+  unfold is_elem_type. rewrite !orb_true_iff, !N.eqb_eq.
+  intros [[[[[->| ->]| ->]| ->]| ->]| ->] [[[[[->| ->]| ->]| ->]| ->]| ->] Hne E E';
+    cbn in E, E'; injection E as <-; injection E' as <-; try (exfalso; apply Hne; reflexivity); discriminate.
+Qed.
